@@ -1,6 +1,7 @@
 package main
 
 import (
+	"bufio"
 	"bytes"
 	"fmt"
 	"io"
@@ -36,6 +37,8 @@ type hprog struct {
 	Status2    int  // != 0: a second, superfluous WriteHeader call right after the first (the first must win)
 	Trailer    bool // announce and send a response trailer (X-Sum)
 	EmptyWrite bool // a zero-length Write before the first part
+	LateHeader bool // after WriteHeader the handler still changes the header map (net/http ignores that)
+	Copy       bool // the body is handed over with io.Copy from a plain reader (optional writer interfaces get probed) instead of Write calls
 }
 
 type progServer struct {
@@ -91,8 +94,16 @@ func (ps *progServer) base(w http.ResponseWriter, r *http.Request) {
 	if p.Trailer {
 		w.Header().Set("Trailer", "X-Sum")
 	}
+	if p.LateHeader {
+		w.Header().Set("Cache-Control", "public, max-age=3600")
+	}
 	if p.Status != 0 {
 		w.WriteHeader(p.Status)
+		if p.LateHeader {
+			w.Header().Set("Cache-Control", "no-store")
+			w.Header().Set("X-Late", "1")
+			w.Header().Del("X-Prog")
+		}
 		if p.Status2 != 0 {
 			w.WriteHeader(p.Status2)
 		}
@@ -106,6 +117,14 @@ func (ps *progServer) base(w http.ResponseWriter, r *http.Request) {
 	}
 	if p.EmptyWrite {
 		w.Write(nil)
+	}
+	if p.Copy {
+		var all []byte
+		for _, x := range p.Parts {
+			all = append(all, x...)
+		}
+		io.Copy(w, struct{ io.Reader }{bytes.NewReader(all)})
+		return
 	}
 	for i, x := range p.Parts {
 		if p.AbortAfter > 0 && i == p.AbortAfter {
@@ -217,25 +236,36 @@ type c14Case struct {
 	Flush    string // none, first (before any write), each, after-first (once, after the first write)
 	Status2  int    // second, superfluous WriteHeader
 	Trailer  bool
-	Empty    bool // zero-length first write
-	AskUp    bool // the request asks for a protocol upgrade (which the handler / backend declines)
+	Empty    bool   // zero-length first write
+	AskUp    bool   // the request asks for a protocol upgrade (which the handler / backend declines)
+	Copy     bool   // body via io.Copy
+	CType    string // response Content-Type ("" = text/plain, "-" = none)
+	Abort    bool   // the handler breaks the response off after its first part
+	Late     bool   // header map changed after WriteHeader
 	Declare  bool
 	Interim  int
 	Entity   int // bodiless response that declares this entity length (HEAD, 304); 0 = none
 }
 
 func (c c14Case) String() string {
-	return fmt.Sprintf("L=%d pos=%s %s status=%d writes=%v flush=%s declare=%v interim=%d entity=%d status2=%d trailer=%v emptywrite=%v asks-upgrade=%v", c.L, c.Position, c.Method, c.Status, c.Comp, c.Flush, c.Declare, c.Interim, c.Entity, c.Status2, c.Trailer, c.Empty, c.AskUp)
+	return fmt.Sprintf("L=%d pos=%s %s status=%d writes=%v flush=%s declare=%v interim=%d entity=%d status2=%d trailer=%v emptywrite=%v asks-upgrade=%v copy=%v ctype=%q abort=%v late-header=%v", c.L, c.Position, c.Method, c.Status, c.Comp, c.Flush, c.Declare, c.Interim, c.Entity, c.Status2, c.Trailer, c.Empty, c.AskUp, c.Copy, c.CType, c.Abort, c.Late)
 }
 
 func (c c14Case) prog() *hprog {
-	hd := []wire.HeaderLine{{"Content-Type", "text/plain"}, {"X-Prog", "1"}}
+	ct := c.CType
+	if ct == "" {
+		ct = "text/plain"
+	}
+	hd := []wire.HeaderLine{{"X-Prog", "1"}}
+	if ct != "-" {
+		hd = append([]wire.HeaderLine{{"Content-Type", ct}}, hd...)
+	}
 	if c.Entity > 0 {
 		hd = append(hd, wire.HeaderLine{"Content-Length", fmt.Sprint(c.Entity)})
 	}
 	return &hprog{Status: c.Status, Header: hd, Parts: partsOf(c.Comp, 5),
 		FlushFirst: c.Flush == "first", FlushEach: c.Flush == "each", DeclareLen: c.Declare, Interim: c.Interim, Status2: c.Status2, Trailer: c.Trailer, EmptyWrite: c.Empty,
-		FlushAfter: map[bool]int{true: 1}[c.Flush == "after-first"]}
+		FlushAfter: map[bool]int{true: 1}[c.Flush == "after-first"], Copy: c.Copy, AbortAfter: map[bool]int{true: 1}[c.Abort], LateHeader: c.Late}
 }
 
 func c14Total(comp []int) int {
@@ -250,6 +280,14 @@ func c14Total(comp []int) int {
 func c14JudgeResponse(c c14Case, with, without wire.Response) (string, string) {
 	total := c14Total(c.Comp)
 	wantBody := c.Method != "HEAD" && c.Status != 204 && c.Status != 304
+	if c.Abort {
+		// the handler broke off mid-body: what reaches the client must not look like a complete
+		// response (unless it is the 413)
+		if with.Err == "" && with.Status != 413 && without.Err != "" {
+			return "C14/aborted-response-delivered-as-complete", fmt.Sprintf("the handler aborted after its first part; without the plugin the client sees a broken response (%s), through it a well-formed one (status %d, %d body bytes)", without.Err, with.Status, len(with.Body))
+		}
+		return "", ""
+	}
 	if without.Err != "" {
 		return "tool", "reference exchange failed: " + without.Err
 	}
@@ -436,6 +474,39 @@ func TestVerifC14(t *testing.T) {
 					}
 				}
 			}
+			// bodies handed over with io.Copy, other content types, handlers that abort mid-body
+			for _, n := range []int{L, L + 1, L + 3} {
+				for _, st := range []int{0, 200, 404} {
+					run(c14Case{L: L, Position: pos, Method: "GET", Status: st, Comp: []int{n}, Flush: "none", Copy: true})
+				}
+				for _, ct := range []string{"text/event-stream", "application/octet-stream", "application/json", "-"} {
+					for _, fl := range []string{"none", "each"} {
+						run(c14Case{L: L, Position: pos, Method: "GET", Status: 200, Comp: []int{n}, Flush: fl, CType: ct})
+					}
+				}
+			}
+			for _, comp := range [][]int{{1, 1}, {L, 1}, {1, L + 2}} {
+				for _, fl := range []string{"none", "each"} {
+					for _, decl := range []bool{false, true} {
+						run(c14Case{L: L, Position: pos, Method: "GET", Status: 200, Comp: comp, Flush: fl, Declare: decl, Abort: true})
+					}
+				}
+			}
+			// header map changed after WriteHeader: not part of the response
+			for _, st := range []int{200, 404, 204} {
+				for _, n := range []int{0, 1, L} {
+					if st == 204 && n != 0 {
+						continue
+					}
+					comp := []int{}
+					if n > 0 {
+						comp = []int{n}
+					}
+					for _, fl := range []string{"none", "first"} {
+						run(c14Case{L: L, Position: pos, Method: "GET", Status: st, Comp: comp, Flush: fl, Late: true})
+					}
+				}
+			}
 			// response trailers and a zero-length first write
 			for _, st := range []int{0, 200, 404} {
 				for _, n := range []int{0, 1, L, L + 1} {
@@ -467,25 +538,30 @@ func TestVerifC14(t *testing.T) {
 			// request direction
 			for _, n := range []int{0, L - 1, L, L + 1, 4 * L} {
 				for _, chunked := range []bool{false, true} {
-					body := pattern(n, 9)
-					req := &wire.Request{Method: "POST", Target: "/u", Header: []wire.HeaderLine{{"Host", "x.test"}}, Body: body, Chunked: chunked, ChunkSz: 2}
-					if n == 4*L {
-						// the far-too-large upload also asks for an upgrade (declined): still bounded
-						req.Header = append(req.Header, wire.HeaderLine{"Connection", "Upgrade"}, wire.HeaderLine{"Upgrade", "h2c"})
-					}
-					psWith.set(&hprog{Status: 200, Parts: [][]byte{[]byte("k")}})
-					rw := ew.do(req, dl)
-					calls, read, rerr := psWith.stats()
-					evals++
-					desc := fmt.Sprintf("L=%d pos=%s POST %d bytes chunked=%v", L, pos, n, chunked)
-					outs.Add(fmt.Sprintf("upload/%v/%d", n > L, rw.Status))
-					switch {
-					case read > L:
-						r.Violate("C14/request/backend-read-more-than-limit", fmt.Sprintf("%s: the handler behind size_limit read %d bytes", desc, read), n, nil)
-					case n > L && !chunked && (rw.Status != 413 || calls != 0):
-						r.Violate("C14/request/declared-oversize-not-rejected-up-front", fmt.Sprintf("%s: status %d, handler invoked %d times", desc, rw.Status, calls), n, nil)
-					case n <= L && (rw.Status != 200 || read != n || rerr != "" || string(rw.Body) != "k"):
-						r.Violate("C14/request/within-limit-upload-disturbed", fmt.Sprintf("%s: status %d, handler read %d bytes (err %q), body %q", desc, rw.Status, read, rerr, rw.Body), n, nil)
+					for _, method := range []string{"POST", "PUT", "PATCH", "DELETE", "GET", "OPTIONS", "PURGE"} {
+						if method != "POST" && (n == 0 || n == L-1) {
+							continue
+						}
+						body := pattern(n, 9)
+						req := &wire.Request{Method: method, Target: "/u", Header: []wire.HeaderLine{{"Host", "x.test"}}, Body: body, Chunked: chunked, ChunkSz: 2}
+						if n == 4*L {
+							// the far-too-large upload also asks for an upgrade (declined): still bounded
+							req.Header = append(req.Header, wire.HeaderLine{"Connection", "Upgrade"}, wire.HeaderLine{"Upgrade", "h2c"})
+						}
+						psWith.set(&hprog{Status: 200, Parts: [][]byte{[]byte("k")}})
+						rw := ew.do(req, dl)
+						calls, read, rerr := psWith.stats()
+						evals++
+						desc := fmt.Sprintf("L=%d pos=%s %s %d bytes chunked=%v", L, pos, method, n, chunked)
+						outs.Add(fmt.Sprintf("upload/%v/%d", n > L, rw.Status))
+						switch {
+						case read > L:
+							r.Violate("C14/request/backend-read-more-than-limit", fmt.Sprintf("%s: the handler behind size_limit read %d bytes", desc, read), n, nil)
+						case n > L && !chunked && (rw.Status != 413 || calls != 0):
+							r.Violate("C14/request/declared-oversize-not-rejected-up-front", fmt.Sprintf("%s: status %d, handler invoked %d times", desc, rw.Status, calls), n, nil)
+						case n <= L && (rw.Status != 200 || read != n || rerr != "" || string(rw.Body) != "k"):
+							r.Violate("C14/request/within-limit-upload-disturbed", fmt.Sprintf("%s: status %d, handler read %d bytes (err %q), body %q", desc, rw.Status, read, rerr, rw.Body), n, nil)
+						}
 					}
 				}
 			}
@@ -494,6 +570,101 @@ func TestVerifC14(t *testing.T) {
 			psWith.srv.Close()
 			psWithout.srv.Close()
 		}
+	}
+	// different limits for the two directions (each way round), and limits left to their
+	// documented defaults (10 MiB up, 50 MiB down): a slip that uses one direction's limit for
+	// the other is invisible while both are equal
+	for _, lim := range [][2]int{{3, 15}, {15, 3}} {
+		idx++
+		if idx%shards != shard {
+			continue
+		}
+		rq, rs := lim[0], lim[1]
+		ps, err := newProgServer([]config.PluginConfig{sizeLimitCfg(rq, rs)})
+		if err != nil {
+			t.Fatal(err)
+		}
+		e := &exch{addr: ps.addr}
+		for _, n := range []int{3, 4, 15, 16} {
+			for _, chunked := range []bool{false, true} {
+				ps.set(&hprog{Status: 200, Parts: [][]byte{[]byte("k")}})
+				rw := e.do(&wire.Request{Method: "POST", Target: "/u", Header: []wire.HeaderLine{{"Host", "x.test"}}, Body: pattern(n, 9), Chunked: chunked, ChunkSz: 2}, dl)
+				calls, read, _ := ps.stats()
+				evals++
+				desc := fmt.Sprintf("max_request_body=%d max_response_body=%d POST %d bytes chunked=%v", rq, rs, n, chunked)
+				outs.Add(fmt.Sprintf("asym-upload/%v/%d", n > rq, rw.Status))
+				switch {
+				case read > rq:
+					r.Violate("C14/request/backend-read-more-than-limit", fmt.Sprintf("%s: the handler behind size_limit read %d bytes", desc, read), n, nil)
+				case n > rq && !chunked && (rw.Status != 413 || calls != 0):
+					r.Violate("C14/request/declared-oversize-not-rejected-up-front", fmt.Sprintf("%s: status %d, handler invoked %d times", desc, rw.Status, calls), n, nil)
+				case n <= rq && (rw.Status != 200 || read != n):
+					r.Violate("C14/request/within-limit-upload-disturbed", fmt.Sprintf("%s: status %d, handler read %d bytes", desc, rw.Status, read), n, nil)
+				}
+			}
+			ps.set(&hprog{Status: 200, Header: []wire.HeaderLine{{"Content-Type", "text/plain"}}, Parts: [][]byte{pattern(n, 5)}})
+			rw := e.do(&wire.Request{Method: "GET", Target: "/p", Header: []wire.HeaderLine{{"Host", "x.test"}}, NoBody: true}, dl)
+			evals++
+			desc := fmt.Sprintf("max_request_body=%d max_response_body=%d response of %d bytes", rq, rs, n)
+			outs.Add(fmt.Sprintf("asym-response/%v/%d", n > rs, rw.Status))
+			if n <= rs && (rw.Status != 200 || len(rw.Body) != n) {
+				r.Violate("C14/within-limit/response-disturbed", fmt.Sprintf("%s: status %d, %d body bytes", desc, rw.Status, len(rw.Body)), n, nil)
+			}
+			if n > rs && rw.Status != 413 {
+				r.Violate("C14/over-limit/not-413-although-nothing-was-sent", fmt.Sprintf("%s (one write): status %d, %d body bytes", desc, rw.Status, len(rw.Body)), n, nil)
+			}
+		}
+		e.close()
+		ps.srv.Close()
+	}
+	for _, which := range []string{"request-default", "response-default"} {
+		idx++
+		if idx%shards != shard {
+			continue
+		}
+		pc := config.PluginConfig{Name: "size_limit", Config: map[string]interface{}{"max_response_body": 1024}}
+		if which == "response-default" {
+			pc = config.PluginConfig{Name: "size_limit", Config: map[string]interface{}{"max_request_body": 1024}}
+		}
+		ps, err := newProgServer([]config.PluginConfig{pc})
+		if err != nil {
+			r.Violate("C14/valid-configuration-rejected", fmt.Sprintf("size_limit with only one of its two keys set (%s): %v", which, err), 1, nil)
+			continue
+		}
+		declared := func(n int) (int, int) {
+			ps.set(&hprog{Status: 200, Parts: [][]byte{[]byte("k")}})
+			c, err := net.DialTimeout("tcp", ps.addr, 5*time.Second)
+			if err != nil {
+				return 0, 0
+			}
+			defer c.Close()
+			c.SetDeadline(time.Now().Add(10 * time.Second))
+			// the declared length is all that matters: the body is never sent
+			fmt.Fprintf(c, "POST /u HTTP/1.1\r\nHost: x.test\r\nContent-Length: %d\r\nConnection: close\r\nExpect: 100-continue\r\n\r\n", n)
+			br := bufio.NewReader(c)
+			line, _ := br.ReadString('\n')
+			st := 0
+			if len(line) >= 12 {
+				fmt.Sscanf(line[9:12], "%d", &st)
+			}
+			calls, _, _ := ps.stats()
+			return st, calls
+		}
+		if which == "request-default" {
+			const mib = 1 << 20
+			for _, n := range []int{10*mib + 1, 11 * mib} {
+				st, calls := declared(n)
+				evals++
+				outs.Add(fmt.Sprintf("default-upload/%d", st))
+				if st != 413 || calls != 0 {
+					r.Violate("C14/request/declared-oversize-not-rejected-up-front/default-limit", fmt.Sprintf("max_request_body left to its documented default (10 MiB): a POST declaring %d bytes got status %d, handler invoked %d times", n, st, calls), 1, nil)
+				}
+			}
+			if st, _ := declared(10 * mib); st == 413 {
+				r.Violate("C14/request/within-limit-upload-disturbed/default-limit", "max_request_body left to its documented default (10 MiB): a POST declaring exactly 10 MiB was rejected", 1, nil)
+			}
+		}
+		ps.srv.Close()
 	}
 	// mounting (a): the program is the backend behind the real balancer and ReverseProxy
 	seqNo := 0
